@@ -246,7 +246,41 @@ def contiguous_partitions(N, L):
         yield [list(range(b[k], b[k + 1])) for k in range(L)]
 
 
-def replay_og(hv, pv, L, R):
+def replay_og(hv, pv, L, R, history=None):
+    """the witness profile on the real code: first in a fresh process state, then (the symbolic run calls
+    optimal_grouping once per path and profile, i.e. it explores call histories) after earlier calls with other
+    profiles on the same height grid"""
+    pc = _pc()
+    if history:
+        for qv in history:
+            try:
+                numpy.random.seed(1)
+                pc.optimal_grouping(R, L, hv.copy(), numpy.asarray(qv, dtype=float))
+            except Exception:
+                pass
+        bad, detail = _og_once(hv, pv, L, R)
+        detail["history"] = "after optimal_grouping with strengths %s on the same heights" % ([list(map(float, qv)) for qv in history],)
+        return bad, detail
+    bad, detail = _og_once(hv, pv, L, R)
+    if bad:
+        return bad, detail
+    n = len(pv)
+    others = [pv[::-1].copy(), numpy.linspace(1.0, 3.0, n) * pv.mean(), numpy.where(numpy.arange(n) == n - 1, 50.0, 0.01) * pv.mean(),
+              numpy.where(numpy.arange(n) == 0, 50.0, 0.01) * pv.mean()]
+    for q in others:
+        try:
+            numpy.random.seed(1)
+            pc.optimal_grouping(R, L, hv.copy(), numpy.asarray(q, dtype=float))
+        except Exception:
+            pass
+        bad, detail = _og_once(hv, pv, L, R)
+        if bad:
+            detail["history"] = "after earlier optimal_grouping calls with other strength profiles on the same heights"
+            return bad, detail
+    return bad, detail
+
+
+def _og_once(hv, pv, L, R):
     pc = _pc()
     notes = []
     bad = False
@@ -287,12 +321,18 @@ def replay_og(hv, pv, L, R):
     return bad, dict(what="; ".join(notes) or "ok", heights=hv, cn2=pv, L=L)
 
 
-def case_og(ctx, N, L, R, heights=None):
+def case_og(ctx, N, L, R, heights=None, earlier=False):
     pc = _pc()
     h, p, w, pre = profile(N, False)
     if heights is not None:
         h = core.obj(numpy.array([Sym(Fr(x)) for x in heights], dtype=object))
         pre = [z(e.re) > 0 for e in p.flat]
+    q = None
+    if earlier:
+        # an earlier call with ANOTHER strength profile on the same heights (history): nothing may carry over
+        q = core.obj(numpy.array([var("q%d" % i) for i in range(N)], dtype=object))
+        pre = pre + [z(e.re) > 0 for e in q.flat]
+        ctx.bounds.update(history="optimal_grouping(R, L, h, q) with an independent symbolic profile q, then the call under test")
     ctx.encoded(pc.optimal_grouping, pc._optGroupingMinimization, pc._vicinity, pc._convert_splits_to_groups, pc._G, "aotools.turbulence.profile_compression._Gjit (py_func)", pc._random_grouping)
     ctx.bounds.update(N=N, L=L, random_restarts=R, rng="numpy.random.choice returns ANY size-(L-1) subset of its options (forked)",
                       heights="symbolic strictly increasing" if heights is None else "concrete irregular %s (strengths symbolic > 0)" % (list(heights),))
@@ -311,13 +351,18 @@ def case_og(ctx, N, L, R, heights=None):
 
     def go():
         with npx.symbolic(pc, proxy=proxy):
+            if q is not None:
+                pc.optimal_grouping(R, L, h, q)
             return pc.optimal_grouping(R, L, h, p)
     paths, ex = core.run_paths(go, pre, max_paths=6000)
     ctx.explored(ex, len(paths))
+
+    def hist(m):
+        return None if q is None else [numpy.abs(numpy.asarray(m(q), dtype=float)) + 1e-3]
     if heights is None:
-        rp = lambda m: replay_og(*conc_profile(m, h, p, None)[:2], L, R)
+        rp = lambda m: replay_og(*conc_profile(m, h, p, None)[:2], L, R, hist(m))
     else:
-        rp = lambda m: replay_og(numpy.array(heights, dtype=float), numpy.abs(numpy.asarray(m(p), dtype=float)) + 1e-3, L, R)
+        rp = lambda m: replay_og(numpy.array(heights, dtype=float), numpy.abs(numpy.asarray(m(p), dtype=float)) + 1e-3, L, R, hist(m))
     tin = Sym(0)
     for e in p:
         tin = tin + e
@@ -401,6 +446,9 @@ def build_cases(tier):
         O += [(5, 2, 1, (0, 2, 3, 7, 12)), (4, 3, 1, (0, 1, 3, 7)), (5, 3, 1, (0, 2, 3, 7, 12)), (4, 2, 2, (0, 1, 3, 7)), (6, 2, 1, (0, 1, 2, 5, 9, 14)), (5, 4, 1, (0, 2, 3, 7, 12))]
     for N, L, R, hs in O:
         cases.append(("optimal_grouping/N=%d/L=%d/R=%d/%s" % (N, L, R, "symbolic-heights" if hs is None else "concrete-heights"), case_og, dict(N=N, L=L, R=R, heights=hs)))
+    H = [(3, 2, 0, (0, 1, 2))] if tier == "quick" else [(3, 2, 0, (0, 1, 2)), (3, 2, 1, (0, 1, 2)), (4, 2, 0, (0, 1, 3, 7)), (4, 3, 0, (0, 1, 3, 7)), (4, 2, 1, (0, 1, 3, 7))]
+    for N, L, R, hs in H:
+        cases.append(("optimal_grouping/N=%d/L=%d/R=%d/after-another-profile" % (N, L, R), case_og, dict(N=N, L=L, R=R, heights=hs, earlier=True)))
     return cases
 
 
